@@ -330,11 +330,14 @@ package argmapper
 //@   ensures  result == getT(self, i) && result != nil
 
 //@ ghost emptyVS(vs *ValueSet) bool = vs != nil && vs.structType == nil && len(vs.values) == 0 && vs.namedValues == nil && vs.typedValues == nil && !vs.isLifted && vs.structPointers == 0
-//@ ghost liftedVS(vs *ValueSet, get func(int) reflect.Type, count int) bool =
+//@ ghost liftedL0(vs *ValueSet, get func(int) reflect.Type, count int) bool =
 //@     vs != nil && vs.isLifted && vs.structPointers == 0 && vs.structType != nil && kindof(vs.structType) == 25 && numField(vs.structType) == count && len(vs.values) == count && soff(vs.values) == 0
 //@     && vs.namedValues != nil && vs.typedValues != nil
-//@     && forall(i, int, imp(0 <= i && i < count, vs.values[i] != nil && vs.values[i].index == i && vs.values[i].Type == getT(get, i) && fieldType(vs.structType, i) == getT(get, i) && vs.values[i].Name == "" && vs.values[i].Subtype == "" && !valid(vs.values[i].Value) && has(vs.typedValues, getT(get, i))))
-//@     && forall(t, reflect.Type, imp(has(vs.typedValues, t), vs.typedValues[t] != nil && vs.typedValues[t].Type == t && 0 <= vs.typedValues[t].index && vs.typedValues[t].index < count && vs.values[vs.typedValues[t].index] == vs.typedValues[t]))
+//@ ghost liftedL1(vs *ValueSet, get func(int) reflect.Type, count int) bool =
+//@     forall(i, int, imp(0 <= i && i < count, vs.values[i] != nil && vs.values[i].index == i && vs.values[i].Type == getT(get, i) && fieldType(vs.structType, i) == getT(get, i) && vs.values[i].Name == "" && vs.values[i].Subtype == "" && !valid(vs.values[i].Value) && has(vs.typedValues, getT(get, i))))
+//@ ghost liftedL2(vs *ValueSet, get func(int) reflect.Type, count int) bool =
+//@     forall(t, reflect.Type, imp(has(vs.typedValues, t), vs.typedValues[t] != nil && vs.typedValues[t].Type == t && 0 <= vs.typedValues[t].index && vs.typedValues[t].index < count && vs.values[vs.typedValues[t].index] == vs.typedValues[t]))
+//@ ghost liftedVS(vs *ValueSet, get func(int) reflect.Type, count int) bool = liftedL0(vs, get, count) && liftedL1(vs, get, count) && liftedL2(vs, get, count)
 
 //@ func newValueSet
 //@   requires count >= 0 && get != nil && forall(i, int, imp(0 <= i && i < count, getOK(get, i)))
@@ -362,7 +365,9 @@ package argmapper
 //@   ensures  [error-means-nil] imp(result1 != nil, result0 == nil)
 //@   ensures  [wraps-function] imp(result1 == nil, result0 != nil && fresh(result0) && f != nil && result0.fn == rvof(f) && kindof(dyntype(f)) == 19 && result0.onceResult == nil && result0.input != nil && result0.output != nil && fresh(result0.input) && fresh(result0.output) && result0.callOpts == opts)
 //@   ensures  [inputs-empty] imp(result1 == nil && numIn(dyntype(f)) == 0, emptyVS(result0.input))
-//@   ensures  [inputs-lifted] imp(result1 == nil && numIn(dyntype(f)) >= 1 && forall(i, int, imp(0 <= i && i < numIn(dyntype(f)), !isMarkerStruct(inType(dyntype(f), i)))), liftedVS(result0.input, methodval("reflect.(Type).In", dyntype(f)), numIn(dyntype(f))))
+//@   ensures  [inputs-lifted-0] imp(result1 == nil && numIn(dyntype(f)) >= 1 && forall(i, int, imp(0 <= i && i < numIn(dyntype(f)), !isMarkerStruct(inType(dyntype(f), i)))), liftedL0(result0.input, methodval("reflect.(Type).In", dyntype(f)), numIn(dyntype(f))))
+//@   ensures  [inputs-lifted-1] imp(result1 == nil && numIn(dyntype(f)) >= 1 && forall(i, int, imp(0 <= i && i < numIn(dyntype(f)), !isMarkerStruct(inType(dyntype(f), i)))), liftedL1(result0.input, methodval("reflect.(Type).In", dyntype(f)), numIn(dyntype(f))))
+//@   ensures  [inputs-lifted-2] imp(result1 == nil && numIn(dyntype(f)) >= 1 && forall(i, int, imp(0 <= i && i < numIn(dyntype(f)), !isMarkerStruct(inType(dyntype(f), i)))), liftedL2(result0.input, methodval("reflect.(Type).In", dyntype(f)), numIn(dyntype(f))))
 //@   ensures  [inputs-struct] imp(result1 == nil && numIn(dyntype(f)) == 1 && isMarkerStruct(inType(dyntype(f), 0)), vsP1(result0.input, baseType(inType(dyntype(f), 0)), numField(baseType(inType(dyntype(f), 0)))) && vsP3(result0.input, baseType(inType(dyntype(f), 0)), numField(baseType(inType(dyntype(f), 0)))) && result0.input.structPointers == ptrDepth(inType(dyntype(f), 0)) && !result0.input.isLifted)
 //@   ensures  [mixed-marker-rejected] imp(numIn(dyntype(f)) > 1 && exists(i, int, 0 <= i && i < numIn(dyntype(f)) && isMarkerStruct(inType(dyntype(f), i))) && f != nil && kindof(dyntype(f)) == 19, result1 != nil)
 //@   ensures  [double-pointer-rejected] imp(f != nil && kindof(dyntype(f)) == 19 && numIn(dyntype(f)) == 1 && isMarkerStruct(inType(dyntype(f), 0)) && ptrDepth(inType(dyntype(f), 0)) > 1, result1 != nil)
